@@ -45,7 +45,9 @@ MkCase(h, s, c) ==
        m == SubSeq(f, 1, Len(f) - c)
        v == Validate(m)
    IN [counts |-> h, items |-> s, cut |-> c, bytes |-> m, full |-> Len(f),
-       ok |-> v.ok, why |-> v.why, offs |-> v.offs]
+       ok |-> v.ok, why |-> v.why, offs |-> v.offs,
+       q12 |-> IF Len(m) >= HdrSize THEN RecClass(m, HdrSize, TRUE) ELSE "hdr-short",
+       rr12 |-> IF Len(m) >= HdrSize THEN RecClass(m, HdrSize, FALSE) ELSE "hdr-short"]
 
 (* cuts that reach into the header give the same bytes whatever the items are: only for its = <<>> *)
 CutSet(full, s) == {c \in 1..full : /\ (full - c >= HdrSize \/ s = <<>>)
